@@ -239,7 +239,7 @@ def describe(beg, end=None, why=None, at=None):
 # random programs / mutated vectors (direction B inputs; the judge is ScriptVM.tla)
 EDGE = [b"", b"\x00", b"\x80", b"\x01", b"\x81", b"\x7f", b"\xff", b"\x02", b"\x10", b"\x11", b"\x00\x01", b"\x00\x80", b"\x01\x00",
         b"\xff\x7f", b"\xff\xff", b"\xff\x00", b"\xff\xff\xff\x7f", b"\xff\xff\xff\xff", b"\x00\x00\x00\x80", b"\x00\x00\x00\x80\x00",
-        b"\xff\xff\xff\xff\x7f", bytes(range(1, 9)), b"\xff" * 8 + b"\x7f", bytes([7]) * 33, b"\x01" * 75, b"\x02" * 76, b"\xab" * 255,
+        b"\xff\xff\xff\xff\x7f", b"\x00\x00\x00\x00\x01", b"\x00" * 7 + b"\x80\x00", b"\x00" * 8 + b"\x01", b"\x00" * 7 + b"\x80\x80", bytes(range(1, 9)), b"\xff" * 8 + b"\x7f", bytes([7]) * 33, b"\x01" * 75, b"\x02" * 76, b"\xab" * 255,
         b"\x05" * 256, b"\x03" * 520, b"\x04" * 521]
 NONSIG_OPS = [op for op in range(79, 186) if op not in SIGOPS]
 FLAG_POOL = ["P2SH", "DISCOURAGE_UPGRADABLE_NOPS", "CHECKLOCKTIMEVERIFY", "CHECKSEQUENCEVERIFY", "MINIMALDATA", "SIGPUSHONLY",
@@ -259,7 +259,7 @@ def minimal_push(x):
 def rand_item(rng):
     r = rng.random()
     if r < 0.7:
-        return rng.choice(EDGE[:24])
+        return rng.choice(EDGE[:28])
     if r < 0.8:
         return rng.choice(EDGE)
     if r < 0.9:
